@@ -124,6 +124,18 @@ func init() {
 					}
 					clauses = gen.Shuffle(r, clauses)
 				}
+				if i%5 >= 3 && len(clauses) > 0 && n < 8 { // two overlapping cores: a clause, the same clause weakened by the
+					// negation of a fact, and the fact (the fact is needed by one core only)
+					u := n + 1
+					n++
+					for k := 0; k < 1+r.Intn(2); k++ {
+						c := clauses[r.Intn(len(clauses))]
+						weak := append(append([]int{}, c...), -u)
+						clauses = append(clauses, weak)
+					}
+					clauses = append(clauses, []int{u})
+					clauses = gen.Shuffle(r, clauses)
+				}
 				if i%7 == 0 && len(clauses) > 0 { // repeated / complementary literals inside a clause
 					j := r.Intn(len(clauses))
 					x := clauses[j][r.Intn(len(clauses[j]))]
